@@ -48,6 +48,26 @@ pub fn convex_hull(poly: &[PointF]) -> Vec<PointF> {
     });
     sorted_points.dedup_by_key(|(a_point, _)| *a_point);
 
+    // Of several points that lie in the same direction from `min_point`, keep
+    // only the furthest. The computed angles of such points can differ by
+    // rounding error, so they are recognized by testing whether they are
+    // collinear with `min_point`, and they may appear in any order.
+    sorted_points.dedup_by(|(b_pt, _), (a_pt, _)| {
+        if *a_pt == min_point {
+            return false;
+        }
+        let a_vec = min_point.vec_to(*a_pt);
+        let b_vec = min_point.vec_to(*b_pt);
+        if a_vec.cross_product_norm(b_vec) != 0. || a_vec.dot(b_vec) <= 0. {
+            return false;
+        }
+        // Remove `b_pt` after moving the furthest point into `a_pt`.
+        if b_vec.length() > a_vec.length() {
+            std::mem::swap(a_pt, b_pt);
+        }
+        true
+    });
+
     // Visit sorted points and keep the sequence that can be followed without
     // making any clockwise turns.
     for &(p, _) in sorted_points.iter() {
